@@ -113,7 +113,7 @@ def cmd_run(args):
 
 def cmd_setup(args):
     os.makedirs(WORK, exist_ok=True)
-    for cfg in build.CONFIGS:
+    for cfg in build.SETUP_CONFIGS:
         build.ensure_build(cfg)
     bad = 0
     for d, dn, fn in os.walk(SPEC):
